@@ -1,13 +1,13 @@
 (* Judge for C08 (client-built requests). *)
 From Coq Require Import ZArith NArith String List Bool.
 From Sidetree Require Import Base.Hex Json.Json Sidetree.Protocol Sidetree.Composer Sidetree.Parser Sidetree.Applier Sidetree.ClientCreate Sidetree.ClientUpdate
-     Sidetree.ClientDeactivateRecover Sidetree.ClientWindowed Sidetree.ClientWindowedDR Harness.Runner Harness.PatchCases Harness.Hist.
+     Sidetree.ClientDeactivateRecover Sidetree.ClientWindowed Sidetree.ClientWindowedDR Sidetree.Anchored Sidetree.Validator Harness.Runner Harness.PatchCases Harness.Hist.
 Import ListNotations.
 Open Scope string_scope.
 
 Inductive c08case :=
 | mk_c08 (h : hcase) (exp_docs : list obj) (exp_doc : obj) (exp_update_c exp_recovery_c : string) (exp_deactivated : bool) (exp_origin : json)
-         (all_built all_parsed anchored_ok linked_ok : bool)
+         (all_built all_parsed anchored_ok linked_ok : bool) (anchored : list (option string))
 | mk_c08refuse (code : nat) (impl_refused expect_refuse : bool)
 | mk_c08conc (as_sequential : bool)
 (* the builder models run on the builders' inputs: the request bytes (or the refusal) must be the implementation's *)
@@ -46,13 +46,30 @@ Fixpoint docs_as_requested (steps : list hstep) (eds : list obj) : bool :=
   | _, _ => true
   end.
 
+(* model.GetAnchoredOperation on every accepted request of the lifecycle: the anchored bytes are the
+   model's (Anchored.anchored_bytes of the model's own parse of the request) *)
+Fixpoint anchored_as_model (steps : list hstep) (impl : list (option string)) : bool :=
+  match steps, impl with
+  | s :: r, a :: ar =>
+      andb (match hs_bytes s with
+            | Some (scfg, t, bytes) =>
+                match parse_operation scfg (uri_ok_of t) (url_norm_of t) (fun _ => true) (fun _ _ => true) bytes false with
+                | Some p => opt_str_eqb (anchored_bytes p) a
+                | None => match a with None => true | Some _ => false end
+                end
+            | None => true
+            end) (anchored_as_model r ar)
+  | _, _ => true
+  end.
+
 Definition judge_c08 (c : c08case) : verdict :=
   match c with
-  | mk_c08 h eds ed eu er edx eo built parsed anch linked =>
+  | mk_c08 h eds ed eu er edx eo built parsed anch linked anchored =>
       if negb built then SpecFail 1                     (* a builder refused valid input *)
       else if negb parsed then SpecFail 2               (* a built request was refused by the parser *)
       else if negb anch then SpecFail 3                 (* anchored form does not preserve the request *)
       else if negb linked then SpecFail 10              (* a reveal value does not open the commitment of the state the request is applied to *)
+      else if negb (anchored_as_model (hc_steps h) anchored) then Mismatch 60   (* the anchored request bytes are not the model's *)
       else match judge_history h with
            | Pass =>
              if negb (docs_as_requested (hc_steps h) eds) then SpecFail 4 else
